@@ -17,4 +17,4 @@ bytes (the builder is disabled first), a build-time panic premise."""
 NOT_DECIDED = """'Never panics for any collection within limits' (the build-time panic inventory R20.4 of the design was not built); paths with more than 127 transitions / 256 classes."""
 CLAIM = """Static decision of pattern-id assignment, metadata provenance chains across the three representations and the public getters, kind/type pairing at every construction site, and builder option plumbing."""
 NOTE = """Trusted: rustc MIR construction, the fact extractor. Build-time panic freedom is not decided."""
-TECHNIQUE = "static analysis: value-provenance chains, construction-site inventories and decision tables over rustc MIR and call generic arguments"
+TECHNIQUE = "static analysis: iteration summaries of the pattern loop (ids, lengths, min/max evaluated on all orderings), construction-site inventories and decision tables over rustc MIR and call generic arguments"
